@@ -33,11 +33,19 @@ func runC14(e *Env) {
 		return
 	}
 	c01Edges(e, s)
-	r.Rule("C14.refusal-propagates", "MPT/DCS", "a graph is admitted only after the checks passed", 3)
+	r.Rule("C14.refusal-propagates", "MPT/DCS", "a graph is admitted only after the checks passed", 2)
 	setup := e.graphRoles().Setup
 	hasCycle := e.graphRoles().HasCycle
-	if setup == nil || hasCycle == nil {
+	if hasCycle == nil || e.graphRoles().EdgeLoop == nil {
 		r.Unknown("graph setup / cycle test", "-", "the function adding the dependency edges, or the boolean test whose positive answer makes it fail, was not found")
+		return
+	}
+	if setup == nil {
+		// edge setup and cycle test are not one function (`link()` + the constructor asking
+		// hasCycle itself): judged per constructor below
+		c14Constructors(e, nil, hasCycle)
+		c14Kahn(e, hasCycle, e.graphRoles().AddEdge)
+		c14GraphFirst(e)
 		return
 	}
 	// setup: nil returned only under hasCycle()==false
@@ -115,43 +123,14 @@ func runC14(e *Env) {
 	}
 	r.Check(okSeen, "graph setup: every added edge is followed by a cycle test before success is reported", e.Pos(setup.Pos()),
 		"edges are added after the (last) cycle test: a cycle closed by a later edge is not seen")
-	for _, name := range []string{"NewExecutionGraph", "NewExecutionGraphForRetry"} {
-		fn := e.Fn(schedRel, name)
-		if fn == nil {
-			continue
-		}
-		var call *ssa.Call
-		for _, ci := range ir.CallsIn(fn, func(c *ssa.CallCommon) bool { return c.StaticCallee() == setup }) {
-			call, _ = ci.(*ssa.Call)
-		}
-		for _, b := range fn.Blocks {
-			for _, in := range b.Instrs {
-				rt, ok := in.(*ssa.Return)
-				if !ok || !e.Facts(fn).Reachable(b) {
-					continue
-				}
-				nonNil := false
-				for _, v := range RetVals(rt, 0) {
-					if !ir.IsNilConst(ir.Resolve(v)) {
-						nonNil = true
-					}
-				}
-				if !nonNil {
-					continue
-				}
-				okS := false
-				for _, l := range e.DCS(rt) {
-					if l.Kind == "cmp" && l.Op == token.EQL && ir.IsNilConst(l.Y) && call != nil && ir.Resolve(l.X) == ssa.Value(call) {
-						okS = true
-					}
-				}
-				r.Check(okS, name+": a graph is returned only when setup()==nil", e.InstrPos(rt), "a graph with a dangling dependency or a cycle is handed to the scheduler")
-			}
-		}
-	}
+	c14Constructors(e, setup, hasCycle)
 
 	c14Kahn(e, hasCycle, e.graphRoles().AddEdge)
+	c14GraphFirst(e)
+}
 
+func c14GraphFirst(e *Env) {
+	r := e.R
 	r.Rule("C14.graph-first", "DCS", "Agent.Run: nothing before the graph was built successfully", 5)
 	a := e.agentRoles()
 	run := a.Run
@@ -308,5 +287,150 @@ func runC14(e *Env) {
 	}
 	if nStores == 0 {
 		r.Unknown("agent: the store of the graph", e.Pos(run.Pos()), "no store to Agent.graph found")
+	}
+}
+
+// c14Constructors: every constructor of the execution graph (exported function of the
+// scheduler package returning (*ExecutionGraph, error)) hands out a graph only after
+// the dependency edges were added and, after that, the cycle test answered "no cycle":
+// through one setup function that does both (setup), or through separate calls
+// (`link()` then `hasCycle()`), in the constructor itself.
+func c14Constructors(e *Env, setup, hasCycle *ssa.Function) {
+	r := e.R
+	gr := e.graphRoles()
+	sp := e.P.Pkg(schedRel)
+	isErrFn := func(f *ssa.Function) bool {
+		res := f.Signature.Results()
+		return res.Len() > 0 && ir.IsErrorType(res.At(res.Len()-1).Type())
+	}
+	// functions that add the edges (contain, or statically reach, the loop over Step.Depends)
+	adds := func(f *ssa.Function) bool {
+		if f == nil || !e.P.Funcs[f] {
+			return false
+		}
+		if f == gr.EdgeLoop {
+			return true
+		}
+		for _, g := range e.staticClosure(f) {
+			if g == gr.EdgeLoop {
+				return true
+			}
+		}
+		return false
+	}
+	// functions that refuse a cyclic graph: an error result that is nil only under hasCycle()==false
+	refuses := func(f *ssa.Function) bool {
+		if f == nil || !e.P.Funcs[f] || f.Blocks == nil || !isErrFn(f) {
+			return false
+		}
+		n := 0
+		for _, b := range f.Blocks {
+			rt, ok := b.Instrs[len(b.Instrs)-1].(*ssa.Return)
+			if !ok || !e.Facts(f).Reachable(b) {
+				continue
+			}
+			nilRet := false
+			for _, v := range RetVals(rt, len(rt.Results)-1) {
+				if ir.IsNilConst(ir.Resolve(v)) {
+					nilRet = true
+				}
+			}
+			if !nilRet {
+				continue
+			}
+			n++
+			if !HasVal(e.DCS(rt), IsCallOf(hasCycle), false) {
+				return false
+			}
+		}
+		return n > 0
+	}
+	nCtor := 0
+	for _, fn := range e.RepoFuncsSorted() {
+		if fn.Package() != sp || fn.Parent() != nil || fn.Synthetic != "" || fn.Object() == nil || !fn.Object().Exported() || fn.Signature.Recv() != nil {
+			continue
+		}
+		res := fn.Signature.Results()
+		if res.Len() != 2 || !strings.HasSuffix(ir.NamedType(res.At(0).Type()), ".ExecutionGraph") || !ir.IsErrorType(res.At(1).Type()) {
+			continue
+		}
+		nCtor++
+		name := fn.Name()
+		var edgeCalls, refuseCalls, cycCalls []*ssa.Call
+		for _, g := range sortedFns(e.inlinedSet(fn, nil)) {
+			if g != fn {
+				continue // calls are looked at in the constructor itself; its helpers through adds / refuses
+			}
+			for _, ci := range ir.CallsIn(g, func(c *ssa.CallCommon) bool { return c.StaticCallee() != nil }) {
+				c, ok := ci.(*ssa.Call)
+				if !ok {
+					continue
+				}
+				h := c.Call.StaticCallee()
+				if h == hasCycle {
+					cycCalls = append(cycCalls, c)
+					continue
+				}
+				if adds(h) {
+					edgeCalls = append(edgeCalls, c)
+				}
+				if refuses(h) {
+					refuseCalls = append(refuseCalls, c)
+				}
+			}
+		}
+		for _, b := range fn.Blocks {
+			rt, ok := b.Instrs[len(b.Instrs)-1].(*ssa.Return)
+			if !ok || !e.Facts(fn).Reachable(b) {
+				continue
+			}
+			nonNil := false
+			for _, v := range RetVals(rt, 0) {
+				if !ir.IsNilConst(ir.Resolve(v)) {
+					nonNil = true
+				}
+			}
+			if !nonNil {
+				continue
+			}
+			passed := func(c *ssa.Call) bool {
+				if isErrFn(c.Call.StaticCallee()) {
+					return e.onlyAfterNil(c, rt)
+				}
+				return ir.Precedes(c, rt)
+			}
+			var firstEdge *ssa.Call
+			for _, ec := range edgeCalls {
+				if passed(ec) && firstEdge == nil {
+					firstEdge = ec
+				}
+			}
+			okCycle := false
+			for _, rc := range refuseCalls {
+				if !e.onlyAfterNil(rc, rt) {
+					continue
+				}
+				if firstEdge != nil && (rc == firstEdge || ir.Precedes(firstEdge, rc)) {
+					okCycle = true
+				}
+			}
+			for _, cc := range cycCalls {
+				if firstEdge != nil && ir.Precedes(firstEdge, cc) && HasVal(e.DCS(rt), func(v ssa.Value) bool { return ir.Resolve(v) == ssa.Value(cc) }, false) {
+					okCycle = true
+				}
+			}
+			var facts []string
+			if firstEdge == nil {
+				facts = append(facts, "no successful edge setup precedes the return")
+			}
+			if !okCycle {
+				facts = append(facts, "no cycle test that answered `no cycle` after the edges were added dominates the return")
+			}
+			r.Check(firstEdge != nil && okCycle, name+": a graph is returned only when setup()==nil", e.InstrPos(rt),
+				"a graph with a dangling dependency or a cycle is handed to the scheduler (this constructor returns a graph without the edge setup and the cycle test having both succeeded)", facts...)
+		}
+	}
+	if nCtor == 0 {
+		r.Unknown("graph constructors", schedRel, "no exported function returning (*ExecutionGraph, error)")
 	}
 }
